@@ -889,9 +889,11 @@ public:
 	    \param tag tag to extract to
 	    \param val value to extract to
 	    \return number of bytes consumed */
-	static unsigned extract_element(const char *from, const unsigned sz, char *tag, char *val)
+	static unsigned extract_element(const char *from, const unsigned sz, char *tag, char *val,
+		const unsigned tag_sz=MAX_MSGTYPE_FIELD_LEN, const unsigned val_sz=FIX8_MAX_FLD_LENGTH)
 	{
 		enum { get_tag, get_value } state(get_tag);
+		const char *const tag_end(tag + tag_sz - 1), *const val_end(val + val_sz - 1); // room for the terminator
 
 		for (unsigned ii(0); ii < sz; ++ii)
 		{
@@ -904,8 +906,10 @@ public:
 						return *val = *tag = 0;
 					state = get_value;
 				}
-				else
+				else if (tag < tag_end)
 					*tag++ = from[ii];
+				else	// tag does not fit
+					return *val = *tag = 0;
 				break;
 			case get_value:
 				if (from[ii] == default_field_separator)
@@ -913,7 +917,10 @@ public:
 					*val = *tag = 0;
 					return ++ii;
 				}
-				*val++ = from[ii];
+				if (val < val_end)
+					*val++ = from[ii];
+				else	// value does not fit
+					return *val = *tag = 0;
 				break;
 			}
 		}
@@ -927,13 +934,17 @@ public:
 	    \param val_sz size of value to be extracted, not including field separator
 	    \param val value to extract to
 	    \return number of bytes consumed */
-	static unsigned extract_element_fixed_width(const char *from, const unsigned sz, const unsigned val_sz, char *tag, char *val)
+	static unsigned extract_element_fixed_width(const char *from, const unsigned sz, const unsigned val_sz, char *tag, char *val,
+		const unsigned tag_sz=MAX_MSGTYPE_FIELD_LEN)
 	{
+		char *const tag_start(tag);
 		*val = *tag = 0;
 		for (unsigned ii(0); ii < sz; ++ii)
 		{
 			if(isdigit(from[ii]))
 			{
+				if (static_cast<unsigned>(tag - tag_start) + 1 >= tag_sz) // tag does not fit
+					break;
 				*tag++ = from[ii];
 				continue;
 			}
@@ -941,11 +952,12 @@ public:
 			if (from[ii++] != default_assignment_separator || sz < (ii + val_sz))
 				break;
 
+			*tag = 0;
 			::memcpy(val, &from[ii], val_sz);
 			val[val_sz] = 0;
 			return ii + val_sz + 1; // account for field separator
 		}
-		return *val = *tag = 0;
+		return *val = *tag_start = 0;
 	}
 
 	/*! Extract a tag/value element from a char buffer.
